@@ -389,6 +389,20 @@ pub fn c01(ctx: &mut Ctx, acc: &mut Acc) -> i32 {
                 continue;
             };
             acc.case(Some(sig(&[id.as_bytes(), &bytes])));
+            // one case in eight comes after the thread has been refused a few damaged inputs of the same type (cut, and
+            // cut with a byte flipped): what a decoder did before must not matter to the round trip
+            if idx % 8 == 3 && bytes.len() > 1 {
+                for _ in 0..3 {
+                    let k = 1 + rng.below(bytes.len() as u64 - 1) as usize;
+                    let mut damaged = bytes[..k].to_vec();
+                    if rng.chance(1, 2) {
+                        let at = rng.below(k as u64) as usize;
+                        damaged[at] ^= 1 << rng.below(8);
+                    }
+                    let _ = sbase::dec_hostile(s, &damaged);
+                }
+                acc.count("round_trips_after_refused_inputs");
+            }
             let ok = check_decodes_to(ctx, acc, "C01", s, &bytes, &exp, "roundtrip");
             if ok {
                 acc.count("roundtrip_ok");
